@@ -222,6 +222,11 @@ def assumptions(ctx):
                 raise Violation("proof", "theorem %s depends on axioms outside the allow-list: %s" % (name, unknown),
                                 b, True)
         ctx.obligations += [t for t in thms]
+        # a finding kept in the code shows up in Coq as a `_refuted` theorem (witness by vm_compute):
+        # it is a listed known finding exactly when known_findings.json names that theorem
+        for e in load_known():
+            if e.get("status") == "known" and e.get("property") == ctx.prop and e.get("refuted_theorem") in thms:
+                ctx.known_hits.append(e)
         ctx.notes.append("%s: %d theorems, %d with Print Assumptions" % (pf, len(thms), len(printed)))
 
 
